@@ -599,7 +599,7 @@ func grpcDecodeTimeout(timeout string) (time.Duration, error) {
 		return 0, protocolError("timeout %q has invalid unit", timeout)
 	}
 	num, err := strconv.ParseInt(timeout[:len(timeout)-1], 10 /* base */, 64 /* bitsize */)
-	if err != nil || num < 0 {
+	if err != nil || num < 0 || timeout[0] == '+' {
 		return 0, protocolError("invalid timeout %q", timeout)
 	}
 	if num > 99999999 { // timeout must be ASCII string of at most 8 digits
